@@ -546,6 +546,8 @@ func run(c *mc.Ctx) {
 
 	expandedVsSingle(c)
 	expandedReuse(c)
+	entropyUse(c)
+	resetGenerations(c)
 	batchHistories(c)
 	batchMacro(c)
 	cachedClosure(c)
@@ -672,6 +674,131 @@ func expandedReuse(c *mc.Ctx) {
 		}
 		w.Eval("expanded-reuse", true)
 	})
+}
+
+// ---- entropy -----------------------------------------------------------------
+//
+// The random linear combination is only sound with 128-bit coefficients.  Whatever the reader's chunking, a batch
+// whose equation is evaluated must (a) give the same decisions and (b) have drawn at least 16 bytes from the reader -
+// a verifier that takes "whatever the first Read returns" from a trickling source runs on a handful of bits.
+type countingReader struct {
+	chunk int
+	n     int
+	src   []byte
+}
+
+func (r *countingReader) Read(p []byte) (int, error) {
+	k := r.chunk
+	if k > len(p) {
+		k = len(p)
+	}
+	for i := 0; i < k; i++ {
+		p[i] = r.src[(r.n+i)%len(r.src)]
+	}
+	r.n += k
+	return k, nil
+}
+
+func entropyUse(c *mc.Ctx) {
+	chunks := []int{1, 2, 7, 16, 31, 32, 33, 64}
+	sizes := []int{1, 2, 3, 95, 96}
+	c.Par("entropy-use", len(chunks)*len(sizes)*2, func(w *mc.W, i int) {
+		ch, n, only := chunks[i%len(chunks)], sizes[(i/len(chunks))%len(sizes)], i/(len(chunks)*len(sizes)) == 1
+		v := ed25519.NewBatchVerifier()
+		var m []ment
+		step(v, &m, bop{kind: 9, n: n, pat: 0}, c.Seed)
+		rd := &countingReader{chunk: ch, src: mc.Bytes(c.Seed, "entropy-use", 0, 97)}
+		var ob *obs
+		if only {
+			ob = &obs{batch: v.VerifyBatchOnly(rd), kind: 7}
+		} else {
+			all, each := v.Verify(rd)
+			ob = &obs{all: all, each: each, kind: 6}
+		}
+		hist := []bop{{kind: 9, n: n, pat: 0}, {kind: 6 + b2i(only), rd: 2}}
+		check(w, hist, m, ob)
+		if rd.n < 16 {
+			w.Fail("BatchVerifier/entropy-drawn", fmt.Sprintf("batch of %d valid entries verified after drawing only %d byte(s) from a reader that hands out %d byte(s) per Read: the coefficients cannot be 128-bit", n, rd.n, ch),
+				map[string]int{"chunk": ch, "entries": n, "drawn": rd.n})
+		}
+		w.Eval("entropy-use", ch < 32)
+	})
+}
+
+func b2i(b bool) int {
+	if b {
+		return 1
+	}
+	return 0
+}
+
+// ---- generations: a batch verifier that has been used, Reset, and is used again -----------------------------------
+//
+// Generation 1 fills the verifier (through Add, which expands keys; AddExpanded; a mixture; a long run), then Reset
+// (optionally followed by ForceNoPublicKeyExpansion); generation 2 is EVERY history of depth <= 3 over the core
+// alphabet followed by VerifyBatchOnly and Verify.  Slots of the backing array that held other keys' entries in
+// generation 1 are reused by generation 2: nothing of the old entries may show.
+func resetGenerations(c *mc.Ctx) {
+	alphabet := batchAlphabet(true)
+	C := func(n string) int { return caseIdx[n] }
+	d := optIdx["default"]
+	gen1 := [][]bop{
+		{{kind: 0, ci: C("honest-k2")}},
+		{{kind: 2, ci: C("honest-k2")}},
+		{{kind: 0, ci: C("honest-k2")}, {kind: 0, ci: C("honest-k1")}, {kind: 2, ci: C("honest-k2")}},
+		{{kind: 2, ci: C("honest-k2")}, {kind: 0, ci: C("flipped-S-bit")}, {kind: 1, ci: C("honest-k1"), oi: optIdx["stdlib"]}},
+		{{kind: 3, ci: C("mixed-order-A"), oi: d}, {kind: 0, ci: C("honest-k2")}, {kind: 0, ci: C("honest-k2")}, {kind: 0, ci: C("honest-k2")}},
+		{{kind: 9, n: 96, pat: 4}},
+		{{kind: 9, n: 96, pat: 0}},
+	}
+	depth := c.Pick(3, 4)
+	var g2 [][]int
+	var rec func(prefix []int)
+	rec = func(prefix []int) {
+		g2 = append(g2, append([]int{}, prefix...))
+		if len(prefix) == depth {
+			return
+		}
+		for oi := range alphabet {
+			if alphabet[oi].kind == 5 || alphabet[oi].kind == 6 || alphabet[oi].kind == 7 {
+				continue // Reset / verify operations are added around generation 2, not inside it
+			}
+			rec(append(prefix, oi))
+		}
+	}
+	rec(nil)
+	c.Rep.Extra["reset-generations"] = map[string]int{"generation1": len(gen1), "generation2": len(g2)}
+	c.Par("reset-generations", len(gen1)*2*len(g2), func(w *mc.W, i int) {
+		gi, force, hi := i/(2*len(g2)), (i/len(g2))%2 == 1, i%len(g2)
+		v := ed25519.NewBatchVerifier()
+		var m []ment
+		var hops []bop
+		do := func(o bop) {
+			hops = append(hops, o)
+			ob := step(v, &m, o, c.Seed)
+			check(w, hops, m, ob)
+		}
+		for _, o := range gen1[gi] {
+			do(o)
+		}
+		do(bop{kind: 5})
+		if force {
+			do(bop{kind: 4})
+		}
+		for _, oi := range g2[hi] {
+			do(alphabet[oi])
+		}
+		do(bop{kind: 7, rd: 0})
+		do(bop{kind: 6, rd: 0})
+		w.Eval("reset-generations", len(g2[hi]) > 0)
+		if i%7001 == 0 {
+			w.Sample(map[string]interface{}{"part": "reset generations", "history": fmt.Sprint(hops)})
+		}
+	})
+	if !c.Replaying() {
+		c.Rep.Traces += int64(len(gen1) * 2 * len(g2))
+		c.Rep.Transitions += int64(len(gen1) * 2 * len(g2))
+	}
 }
 
 // ---- (a) batch histories -----------------------------------------------------
